@@ -46,6 +46,15 @@ class Down(object):
         self.trans = 0          # index of the current transaction (= MAIL commands seen before it) on this connection
         self.nmail = 0
         self.marker = 0
+        # realfd: fileno() is a real descriptor that is readable exactly when the relay would find something to read
+        # (an unread answer, or the peer's hang-up) - what Client.has_reply_waiting() looks at before every delivery
+        self.sa = self.sb = None
+        self._sig = False
+        self.kicked = False
+        if getattr(drv, 'realfd', False):
+            import socket as _s
+            self.sa, self.sb = _s.socketpair()
+            self.sa.setblocking(False)
         if not imm:
             self.act('banner', 0)
 
@@ -71,7 +80,34 @@ class Down(object):
         return self
 
     def fileno(self):
+        if self.sa is not None and not self.closed:
+            return self.sa.fileno()
         return -1
+
+    def _sync(self):
+        if self.sa is None or self.closed:
+            return
+        want = bool(self.out) or self.closed_by_peer
+        if want and not self._sig:
+            self.sb.send(b'x')
+            self._sig = True
+        elif not want and self._sig:
+            self.sa.recv(1)
+            self._sig = False
+
+    def kick(self, code=421):
+        """the downstream's own idle timeout: an unsolicited reply and a hang-up while the relay keeps the connection
+        in its pool.  Like a real TCP peer that has gone: what is written afterwards disappears, what is read is the
+        pending reply and then end-of-file.  The reply text carries marker 99 (no request has that number)."""
+        if self.closed or self.closed_by_peer:
+            return False
+        self.drv.log(t='peer', stage='idle', i=0, act='code', code=code, conn=self.conn, trans=self.trans, m=0)
+        self.out += ('%d r%d idle timeout m99\r\n' % (code, code)).encode()
+        self.closed_by_peer = True
+        self.kicked = True
+        self.ev.set()
+        self._sync()
+        return True
 
     def getpeername(self):
         return ('198.51.100.7', 25)
@@ -80,6 +116,9 @@ class Down(object):
         if not self.closed:
             self.closed = True
             self.drv.log(t='conn', what='close', conn=self.conn)
+            if self.sa is not None:
+                self.sa.close()
+                self.sb.close()
         self.ev.set()
 
     def get(self, stage, i):
@@ -106,10 +145,12 @@ class Down(object):
         if a == 'disconnect':
             self.closed_by_peer = True
             self.ev.set()
+            self._sync()
             return None
         if a == 'malformed':
             self.out += b'this is not a reply\r\n'
             self.ev.set()
+            self._sync()
             return 'malformed'
         text = 'r%d %s' % (a, stage) + (' m%d' % self.marker if stage in ('mail', 'rcpt', 'data', 'eod') and self.marker else '')
         if a >= 400:          # identity of this failure reply (queue scenarios group bounces by it)
@@ -124,6 +165,7 @@ class Down(object):
         else:
             self.out += ('%d %s\r\n' % (a, text)).encode()
         self.ev.set()
+        self._sync()
         return a
 
     def sendall(self, data):
@@ -131,6 +173,8 @@ class Down(object):
             import errno
             import socket
             raise socket.error(errno.EBADF, 'Bad file descriptor')
+        if self.kicked:
+            return
         if self.closed_by_peer:
             import errno
             import socket
@@ -214,6 +258,7 @@ class Down(object):
             self.ev.clear()
             self.ev.wait()
         d, self.out = self.out[:n], self.out[n:]
+        self._sync()
         return d
 
 
@@ -229,9 +274,11 @@ class FakeContext(object):
 
 class RelayRun(object):
     def __init__(self, lmtp, pipelining, scripts, pool_size=None, idle_timeout=None, connect=None, auth=False, starttls=None,
-                 creds=None, imm=False):
+                 creds=None, imm=False, realfd=False):
         """scripts: list of per-connection scripts (k-th connection uses scripts[k], last one repeated)"""
         CLOCK.reset(1000.0)
+        self.realfd = realfd
+        self.downs = []
         self.ev = []
         self.bodies = []
         self.lmtp, self.pipelining, self.scripts = lmtp, pipelining, scripts
@@ -269,8 +316,20 @@ class RelayRun(object):
             raise socket.error(errno.ECONNREFUSED, 'refused')
         if act == 'stall':
             Event().wait()
-        return Down(self, self.scripts[min(k, len(self.scripts) - 1)], self.lmtp, self.pipelining, k, auth=self.auth, starttls=self.starttls,
-                    creds=self.creds, imm=self.imm)
+        d = Down(self, self.scripts[min(k, len(self.scripts) - 1)], self.lmtp, self.pipelining, k, auth=self.auth, starttls=self.starttls,
+                 creds=self.creds, imm=self.imm)
+        self.downs.append(d)
+        return d
+
+    def tick_small(self, eps=0.05, rounds=6):
+        """fire the timers that are due within eps (the 0.01 s look at the socket before a delivery), nothing else"""
+        for _ in range(rounds):
+            self.settle()
+            d = CLOCK.next_deadline()
+            if d is None or d > CLOCK.now + eps:
+                break
+            CLOCK.fire_next()
+        self.settle()
 
     def attempt(self, req, nrcpt, sender=None, addrs=None):
         """addrs: optional list (one entry per recipient) of address numbers, so that an address can be listed twice"""
